@@ -65,11 +65,18 @@ def make_traj(k, identified, kind='good', layout='single'):
     """Trajectory number k (k = number of add attempts so far): every value encodes k."""
     from AEIC.trajectories.trajectory import Trajectory
 
-    fieldsets = None
+    # The object is built the way a producer recycling its objects would: it is inspected (hashed, its species
+    # list read - what offering it to a store does) at every intermediate stage and only then extended / refilled.
+    # The final contents are what counts; the library must not remember anything from the earlier stages.
+    def inspect(t):
+        hash(t)
+        t.species  # noqa: B018
+
+    t = Trajectory(NPTS)
+    inspect(t)
     if kind == 'bad_fieldset':
-        extra_fieldset()
-        fieldsets = ['vf_hist_extra']
-    t = Trajectory(NPTS, fieldsets=fieldsets)
+        t.add_fields(extra_fieldset())
+        inspect(t)
     base = 1000.0 * (k + 1)
     for j, name in enumerate(
         [
@@ -96,8 +103,11 @@ def make_traj(k, identified, kind='good', layout='single'):
     if layout == 'assoc':
         from AEIC.types import Species, SpeciesValues
 
+        inspect(t)
         t.add_fields(assoc_fieldset())
         t.ap = _work('ap', 5000.0 + k + np.arange(NPTS) * 0.125)
+        t.asp = SpeciesValues({Species.H2O: 1.0})  # an earlier filling of the recycled object
+        inspect(t)
         sp = {Species.CO2: 70.0 + k}
         if kind == 'bad_species':
             sp[Species.NOx] = 1.0  # a species the associated file has no slot for
